@@ -195,7 +195,7 @@ def execute(sc, ctx):
                 mm = HASH_LINE.match(line)
                 if mm:
                     found = True
-                    if not compare("hash", mm.group(2), mm.group(1), mm.group(3), 1, multi):
+                    if not compare("hash", w.abs_of(mm.group(2), op.get("cwd")), mm.group(1), mm.group(3), 1, multi):
                         return
             if not found:
                 ctx.violate({"kind": "hash-prints-nothing", "entry": "hash"}, f"{argv}: {res.stdout!r}")
